@@ -80,6 +80,7 @@ func allSettings() []settings {
 type outcome struct {
 	cell cell
 	ans  *answer
+	ans2 *answer // second statement of a parallelbatch request
 	err  string
 	ran  bool
 }
@@ -222,30 +223,33 @@ func (c cell) params() url.Values {
 }
 
 // runCell executes the query text in one cell. With parallelbatch the text is sent twice
-// in one request (two statements executed concurrently); both must give the same answer.
-func (rn *runner) runCell(s *proc.Server, q *querySpec, c cell) (*answer, string) {
+// in one request (two statements executed concurrently); the second answer is judged too.
+func (rn *runner) runCell(s *proc.Server, dbname string, q *querySpec, c cell) outcome {
+	o := outcome{cell: c, ran: true}
 	text := q.text(c.Desc)
 	if c.Batch {
 		text = text + "; " + text
 	}
-	res, err := s.Query(db, text, c.params())
+	res, err := s.Query(dbname, text, c.params())
 	if err != nil {
-		return nil, err.Error()
+		o.err = err.Error()
+		return o
 	}
 	a, err := decodeAnswer(res, 0)
 	if err != nil {
-		return nil, err.Error()
+		o.err = err.Error()
+		return o
 	}
+	o.ans = a
 	if c.Batch {
 		a2, err := decodeAnswer(res, 1)
 		if err != nil {
-			return nil, "second statement of the batch: " + err.Error()
+			o.err = "second statement of the batch: " + err.Error()
+			return o
 		}
-		if m := compareAnswers(a.canonical(c.Desc), a2.canonical(c.Desc), q.Func == "mean"); m != nil {
-			return nil, "the two statements of one batch request differ: " + m.String()
-		}
+		o.ans2 = a2
 	}
-	return a, ""
+	return o
 }
 
 // runServer starts one server, loads the layout, and runs its share of the matrix.
@@ -297,7 +301,12 @@ func (rn *runner) runServer(d *dataset, qs []*querySpec, cells [][]cell, groups 
 	}
 	l := kit.ReadLayout(s, db)
 	c.Distinct("layout-observed", layout+": "+l.String())
-	// jobs of this server grouped by global settings
+	return rn.runJobs(s, db, d, qs, cells, groups, layout, pt, out)
+}
+
+// runJobs runs this server's share of the matrix, grouped by global settings.
+func (rn *runner) runJobs(s *proc.Server, dbname string, d *dataset, qs []*querySpec, cells [][]cell, groups []settings, layout string, pt int, out [][]outcome) bool {
+	c := rn.c
 	for _, g := range groups {
 		var jobs []job
 		for qi := range cells {
@@ -316,13 +325,12 @@ func (rn *runner) runServer(d *dataset, qs []*querySpec, cells [][]cell, groups 
 		}
 		ch := make(chan job)
 		var wg sync.WaitGroup
-		for w := 0; w < 3; w++ {
+		for w := 0; w < queryWorkers(); w++ {
 			wg.Add(1)
 			go func() {
 				defer wg.Done()
 				for j := range ch {
-					a, e := rn.runCell(s, qs[j.qi], cells[j.qi][j.ci])
-					out[j.qi][j.ci] = outcome{cell: cells[j.qi][j.ci], ans: a, err: e, ran: true}
+					out[j.qi][j.ci] = rn.runCell(s, dbname, qs[j.qi], cells[j.qi][j.ci])
 				}
 			}()
 		}
@@ -331,13 +339,21 @@ func (rn *runner) runServer(d *dataset, qs []*querySpec, cells [][]cell, groups 
 		}
 		close(ch)
 		wg.Wait()
-		if !s.Alive() {
+		if s.Pid() != 0 && !s.Alive() {
 			c.Violation("server-died:"+firstFatal(s.StdoutTail(1<<20)), fmt.Sprintf("dataset %d %s/pt%d: server died while answering queries", d.Index, layout, pt),
 				map[string]any{"dataset": d.witness(""), "layout": layout, "ptnum": pt, "stdout": s.StdoutTail(4000)})
 			return false
 		}
 	}
 	return true
+}
+
+// queryWorkers: queries in flight per server (they share the server's global settings).
+func queryWorkers() int {
+	if v, err := strconv.Atoi(os.Getenv("VERIF_C08_WORKERS")); err == nil && v > 0 {
+		return v
+	}
+	return 3
 }
 
 func firstFatal(s string) string {
@@ -447,6 +463,10 @@ func main() {
 		rn.replay()
 		c.Finish()
 	}
+	if at := os.Getenv("VERIF_C08_ATTACH"); at != "" {
+		rn.attach(strings.Split(at, ","))
+		c.Finish()
+	}
 	nds := c.Pick(1, 8)
 	nq := c.Pick(60, 300)
 	perServer := c.Pick(1, 3)
@@ -520,4 +540,111 @@ func (rn *runner) replay() {
 	rn.runDataset(d, qs, cells, groups, 0)
 	c.Nontrivial("replay-a")
 	c.Nontrivial("replay-b")
+}
+
+// attach (calibration aid, not used by ./run): VERIF_C08_ATTACH=ip1,ip2 runs the queries
+// of dataset 0 against servers that are already up (memtable layout only; the i-th server
+// stands for ptnum index i).
+func (rn *runner) attach(ips []string) {
+	c := rn.c
+	r := c.Rand(100)
+	d := genDataset(r, 0, 100+r.IntN(101))
+	nq := 200
+	if v, err := strconv.Atoi(os.Getenv("VERIF_C08_QUERIES")); err == nil && v > 0 {
+		nq = v
+	}
+	qr := c.Rand(200)
+	qs := make([]*querySpec, nq)
+	for i := range qs {
+		qs[i] = genQuery(qr, d)
+	}
+	cells, _ := planCells(c.Rand(300), nq, 1, 3)
+	if only := os.Getenv("VERIF_C08_ONLY"); only != "" {
+		keep := map[int]bool{}
+		for _, x := range strings.Split(only, ",") {
+			if strings.Contains(x, "-") {
+				var a, b int
+				fmt.Sscanf(x, "%d-%d", &a, &b)
+				for i := a; i <= b; i++ {
+					keep[i] = true
+				}
+			} else {
+				v, _ := strconv.Atoi(x)
+				keep[v] = true
+			}
+		}
+		for qi := range cells {
+			if !keep[qi] {
+				cells[qi] = nil
+			}
+		}
+	}
+	dbname := fmt.Sprintf("c08s%d", c.Seed)
+	out := make([][]outcome, nq)
+	for qi := range qs {
+		var keep []cell
+		for _, cl := range cells[qi] {
+			if cl.Layout == "mem" {
+				if os.Getenv("VERIF_C08_NOBTM") != "" {
+					cl.BTM = false
+				}
+				keep = append(keep, cl)
+			}
+		}
+		cells[qi] = keep
+		out[qi] = make([]outcome, len(keep))
+	}
+	var wg sync.WaitGroup
+	for i, ip := range ips {
+		if i >= len(ptnums) {
+			break
+		}
+		s := proc.New(proc.Config{IP: ip})
+		res, err := s.Query("", "SHOW DATABASES", nil)
+		if err != nil {
+			c.Broken("attach %s: %v", ip, err)
+			return
+		}
+		if !strings.Contains(res.Raw, `"`+dbname+`"`) {
+			if _, err := s.Query("", "CREATE DATABASE "+dbname+" WITH SHARD DURATION 1h", nil); err != nil {
+				c.Broken("attach %s: %v", ip, err)
+				return
+			}
+			for _, part := range d.Parts {
+				for _, b := range batches(part, 250) {
+					if wr := s.Write(dbname, model.LPBatch(b), nil); !wr.Acked() {
+						c.Broken("attach %s: write %d %s", ip, wr.Status, wr.Body)
+						return
+					}
+				}
+			}
+		}
+		var all []model.Point
+		for _, p := range d.Parts {
+			all = append(all, p...)
+		}
+		if _, err := kit.WaitSeries(s, dbname, all, 60*time.Second); err != nil {
+			c.Broken("attach %s: %v", ip, err)
+			return
+		}
+		var gs []settings
+		seen := map[settings]bool{}
+		for qi := range cells {
+			for _, cl := range cells[qi] {
+				if cl.Pt == ptnums[i] && !seen[cl.settings] {
+					seen[cl.settings] = true
+					gs = append(gs, cl.settings)
+				}
+			}
+		}
+		wg.Add(1)
+		go func(s *proc.Server, pt int) {
+			defer wg.Done()
+			rn.runJobs(s, dbname, d, qs, cells, gs, "mem", pt, out)
+		}(s, ptnums[i])
+	}
+	wg.Wait()
+	for qi, q := range qs {
+		rn.judge(d, qi, q, out[qi])
+	}
 }
